@@ -493,7 +493,7 @@ std::string judge_crash(ChildRun const& c, Point const& pt, std::vector<ThreadGe
     if (code == 77) return "raise() returned to the program: the handler did not end the process" + errinfo;
     if (code == 78) return "the signal sent to the thread was not acted upon within 10 s" + errinfo;
     if (code == 79) return "with the backend running and no termination requested, the queued statements were not written within 10 s" + errinfo;
-    if (code == 90 || code == 91) return "HARNESS: child could not run (exit " + std::to_string(code) + ")" + errinfo;
+    if (code == 90 || code == 91 || code == 92) return "HARNESS: child could not run (exit " + std::to_string(code) + ")" + errinfo;
   }
 
   // what the program had completed when the event was fired
@@ -731,6 +731,14 @@ void run_crash_case(Choices& c, Report& r)
       m = judge_crash(runs[i], points[i], th, unwritten, slow);
     }
     if (unwritten) ++n_unwritten;
+    if (m.compare(0, 8, "HARNESS:") == 0)
+    {
+      // fork/exec/scratch trouble: says nothing about quill
+      r.count("harness_trouble");
+      if (!r.inconclusive && !r.failed) { r.inconclusive = true; r.message = m; }
+      cleanup(runs[i], false);
+      continue;
+    }
     if (!m.empty())
     {
       r.fail(std::string{"kind "} + kKindName[points[i].kind] + ", boundary " + std::to_string(points[i].boundary) + " of thread " +
@@ -760,6 +768,7 @@ void run_crash_case(Choices& c, Report& r)
 struct BurstGen
 {
   int who; // 0 main, 1..L live, -1 ephemeral
+  bool big{false};
   std::vector<unsigned> sizes;
 };
 
@@ -783,7 +792,7 @@ void run_cycles_case(Choices& c, Report& r)
   {
     k.be = gen_backend(c);
     k.handler = !c.flip(2, 3);
-    k.fresh = !c.flip(2, 3);
+    k.fresh = !c.flip();
     k.remove = k.fresh && !c.flip();
     k.stopper = c.pick(L + 1);
     unsigned const nb = 1 + c.pick(4);
@@ -799,6 +808,7 @@ void run_cycles_case(Choices& c, Report& r)
         // a big burst of tiny statements: thousands queued when Stop is issued
         unsigned const n = static_cast<unsigned>(c.range(200, 3000));
         for (unsigned i = 0; i < n; ++i) g.sizes.push_back(i % 23);
+        g.big = true;
         any_big = true;
       }
       else
@@ -835,7 +845,8 @@ void run_cycles_case(Choices& c, Report& r)
       unsigned tid;
       if (g.who < 0) tid = 100u * (ci + 1u) + e_idx++;
       else tid = static_cast<unsigned>(g.who);
-      body += std::string{"burst tid="} + (g.who < 0 ? "e" : std::to_string(g.who)) + " sizes=" + sizes_csv(g.sizes) + "\n";
+      body += std::string{"burst tid="} + (g.who < 0 ? "e" : std::to_string(g.who)) + " sizes=" +
+        (g.big ? "mod23x" + std::to_string(g.sizes.size()) : sizes_csv(g.sizes)) + "\n";
       rl += " " + (g.who < 0 ? "e" + std::to_string(tid) : "t" + std::to_string(tid)) + "x" + std::to_string(g.sizes.size());
       if (g.sizes.size() <= 12) rl += "[" + sizes_csv(g.sizes) + "]";
       auto& dst = k.fresh ? cyc_lines[tid] : app_lines[tid];
@@ -874,7 +885,7 @@ void run_cycles_case(Choices& c, Report& r)
   {
     int const code = WIFEXITED(run.status) ? WEXITSTATUS(run.status) : -1;
     if (code == 79) m = "with the backend running, the queued statements were not written within 10 s; progress: \"" + esc(rep, 300) + "\"" + errinfo;
-    else if (code == 90 || code == 91) m = "HARNESS: child could not run (exit " + std::to_string(code) + ")" + errinfo;
+    else if (code == 90 || code == 91 || code == 92) m = "HARNESS: child could not run (exit " + std::to_string(code) + ")" + errinfo;
     else m = "expected exit status 0, saw " + status_text(run.status) + "; progress: \"" + esc(rep, 300) + "\"" + errinfo;
   }
   else
@@ -922,6 +933,13 @@ void run_cycles_case(Choices& c, Report& r)
       }
     }
     if (!m.empty()) m += errinfo;
+  }
+  if (m.compare(0, 8, "HARNESS:") == 0)
+  {
+    r.count("harness_trouble");
+    r.inconclusive = true;
+    r.message = m;
+    m.clear();
   }
   if (!m.empty()) r.fail(m + "\n--- spec ---\n" + shown(run.dir, run.spec_body));
   cleanup(run, !m.empty());
